@@ -328,6 +328,9 @@ pub enum FileSpec {
     Dir,
     /// A file of this many bytes that is unlinked while the harness holds it open; it is mapped through /proc/self/fd/N.
     Unlinked(u64),
+    /// A copy of an executable, padded to a multiple of 8 bytes, that is running as a child process: nobody,
+    /// not even root, can open it for writing (ETXTBSY), but it can be mapped read-only.
+    BusyExe,
 }
 
 #[derive(Clone, Debug, Serialize, Deserialize, PartialEq, Eq)]
@@ -349,6 +352,18 @@ pub enum LOp {
 pub struct MapLife {
     pub files: Vec<FileSpec>,
     pub ops: Vec<LOp>,
+    /// The working directory of the process has been removed and the files are named by `..`-relative paths.
+    #[serde(default)]
+    pub cwd_removed: bool,
+}
+
+/// Children that keep an executable busy; killed when the scenario ends, however it ends.
+struct BusyGuard(Vec<std::process::Child>);
+
+impl Drop for BusyGuard {
+    fn drop(&mut self) {
+        for c in self.0.iter_mut() { let _ = c.kill(); let _ = c.wait(); }
+    }
 }
 
 struct Live {
@@ -368,7 +383,7 @@ impl MapLife {
             files.push(match rng.below(22) {
                 0 => FileSpec::Missing,
                 20 => FileSpec::Dir,
-                21 => FileSpec::Unlinked(*rng.pick(&[8u64, 4096, 4104, 32776])),
+                21 => if rng.bool() { FileSpec::Unlinked(*rng.pick(&[8u64, 4096, 4104, 32776])) } else { FileSpec::BusyExe },
                 1 | 4 if big => FileSpec::Sparse(*rng.pick(&[64u64 << 20, (64 << 20) + 4104, 1 << 30, 1 << 30, (5u64 << 30) + 4104])),
                 // Tens of megabytes (where huge-page or chunked mapping strategies start), cheap because sparse.
                 1 => FileSpec::Sparse(*rng.pick(&[(16u64 << 20) + 3 * 4096 + 40, 16 << 20, (32 << 20) + 8, (64 << 20) + 4104])),
@@ -391,19 +406,28 @@ impl MapLife {
             };
             ops.push(op);
         }
-        MapLife { files, ops }
+        MapLife { files, ops, cwd_removed: rng.chance(1, 12) }
     }
 
     pub fn run(&self, prop: &str) -> Outcome {
         let mut out = Outcome::default();
         out.stats.evaluations = 1;
-        let paths: Vec<PathBuf> = self.files.iter().map(|_| scratch::file("life")).collect();
-        let r = self.run_inner(prop, &paths, &mut out.stats);
+        // With `cwd_removed` the files live in <scratch>/cwdN/ and the process sits in the removed directory <scratch>/cwdN/gone.
+        let (paths, base): (Vec<PathBuf>, Option<PathBuf>) = if self.cwd_removed {
+            let base = scratch::file("cwd");
+            let gone = base.join("gone");
+            if std::fs::create_dir_all(&gone).is_ok() && std::env::set_current_dir(&gone).is_ok() && std::fs::remove_dir(&gone).is_ok() {
+                out.stats.probe("working directory removed, files named by relative paths");
+                ((0..self.files.len()).map(|i| base.join(format!("life-{}", i))).collect(), Some(base))
+            } else { let _ = std::env::set_current_dir(scratch::dir()); (self.files.iter().map(|_| scratch::file("life")).collect(), None) }
+        } else { (self.files.iter().map(|_| scratch::file("life")).collect(), None) };
+        let r = self.run_inner(prop, &paths, base.is_some(), &mut out.stats);
+        if let Some(b) = base { let _ = std::env::set_current_dir(scratch::dir()); for p in paths.iter() { let _ = std::fs::remove_file(p); let _ = std::fs::remove_dir(p); } let _ = std::fs::remove_dir_all(&b); }
         for p in paths.iter() { let _ = std::fs::remove_file(p); let _ = std::fs::remove_dir(p); }
         match r { Ok(()) => out, Err(viol) => out.fail(viol) }
     }
 
-    fn run_inner(&self, prop: &str, paths: &[PathBuf], stats: &mut Stats) -> Result<(), Violation> {
+    fn run_inner(&self, prop: &str, paths: &[PathBuf], relative: bool, stats: &mut Stats) -> Result<(), Violation> {
         let v = |clause: &str, site: &str, msg: String| Violation::new(prop, clause, site, msg);
         // The address-space oracle needs /proc/self/maps; without it nothing can be judged.
         if !std::fs::read_to_string("/proc/self/maps").map(|t| t.lines().count() > 3).unwrap_or(false) {
@@ -413,12 +437,26 @@ impl MapLife {
         let mut model: Vec<Option<Vec<u8>>> = Vec::new();
         let mut sparse_len: Vec<Option<u64>> = Vec::new();
         // What is passed to MemoryMap::new (differs from `paths`, the name in /proc/self/maps, for unlinked files).
-        let mut map_paths: Vec<PathBuf> = paths.to_vec();
+        let mut map_paths: Vec<PathBuf> = if relative { paths.iter().map(|p| PathBuf::from("..").join(p.file_name().unwrap())).collect() } else { paths.to_vec() };
         let mut held: Vec<Option<std::fs::File>> = Vec::new();
+        let mut busy = BusyGuard(Vec::new());
         for (i, f) in self.files.iter().enumerate() {
             held.push(None);
             match f {
                 FileSpec::Missing => { let _ = std::fs::remove_file(&paths[i]); model.push(None); sparse_len.push(None); },
+                FileSpec::BusyExe => {
+                    // Copy a small executable, pad it, run the copy: the file is then busy as program text.
+                    let src = ["/bin/sleep", "/usr/bin/sleep"].iter().map(std::path::Path::new).find(|p| p.exists());
+                    let mut content = src.and_then(|p| std::fs::read(p).ok()).unwrap_or_default();
+                    while content.len() % 8 != 0 { content.push(0); }
+                    let started = !content.is_empty() && std::fs::write(&paths[i], &content).is_ok() && {
+                        use std::os::unix::fs::PermissionsExt;
+                        let _ = std::fs::set_permissions(&paths[i], std::fs::Permissions::from_mode(0o700));
+                        match std::process::Command::new(&paths[i]).arg("600").stdin(std::process::Stdio::null()).stdout(std::process::Stdio::null()).stderr(std::process::Stdio::null()).spawn() { Ok(c) => { busy.0.push(c); true }, Err(_) => false }
+                    };
+                    if started { stats.probe("file busy as the text of a running program"); model.push(Some(content)); } else { let _ = std::fs::remove_file(&paths[i]); model.push(None); }
+                    sparse_len.push(None);
+                },
                 FileSpec::Dir => { std::fs::create_dir_all(&paths[i]).map_err(|e| v("harness", "mkdir", e.to_string()))?; model.push(None); sparse_len.push(None); },
                 FileSpec::Unlinked(n) => {
                     use std::os::fd::AsRawFd;
@@ -442,7 +480,7 @@ impl MapLife {
                 },
             }
         }
-        let mut cur_size: Vec<Option<u64>> = self.files.iter().map(|f| match f { FileSpec::Missing | FileSpec::Dir => None, FileSpec::Size(n) | FileSpec::Sparse(n) | FileSpec::Unlinked(n) => Some(*n) }).collect();
+        let mut cur_size: Vec<Option<u64>> = self.files.iter().enumerate().map(|(i, f)| match f { FileSpec::Missing | FileSpec::Dir => None, FileSpec::BusyExe => model[i].as_ref().map(|m| m.len() as u64), FileSpec::Size(n) | FileSpec::Sparse(n) | FileSpec::Unlinked(n) => Some(*n) }).collect();
         let mut slots: Vec<Option<Live>> = Vec::new();
         let mut sig: u64 = 0;
 
@@ -532,8 +570,10 @@ impl MapLife {
                     if refused && *sticky { stats.fault("M1-mmap-refused (every attempt)", 1); }
                     if kernel_failed && *refuse == Some(-1) { stats.fault("M1-mmap-refused (real kernel, RLIMIT_AS)", 1); }
                     if kernel_failed && self.files[*file] == FileSpec::Dir { stats.fault("M1-mmap-refused (real kernel, directory)", 1); }
+                    let busy_text = self.files[*file] == FileSpec::BusyExe && size.is_some();
                     let must_fail = match (&self.files[*file], size) {
                         (FileSpec::Missing, _) => Some("the file does not exist"),
+                        (FileSpec::BusyExe, None) => Some("the file does not exist"),
                         (_, Some(n)) if n % 8 != 0 => Some("the file size is not a multiple of 8"),
                         _ if !some_mapping && refused => Some("every mmap() call was refused"),
                         _ if !some_mapping && kernel_failed => Some("mmap() returned MAP_FAILED"),
@@ -549,6 +589,8 @@ impl MapLife {
                             return Err(v("failure-accepted", "MemoryMap::new", format!("{}: MemoryMap::new returned Ok although {} (file {:?})", step, why, self.files[*file])));
                         },
                         (Err(_), Some(_)) => { slots.push(None); stats.probe("map creation failed loudly"); },
+                        // A running program's file cannot be opened for writing: refusing the mutable map is the loud answer.
+                        (Err(_), None) if busy_text && *mutable => { slots.push(None); stats.probe("mutable map of a busy executable refused"); },
                         (Err(e), None) => return Err(v("map-error", "MemoryMap::new", format!("{}: mapping a healthy file ({:?}) failed: {}", step, self.files[*file], e))),
                         (Ok(m), None) => {
                             // Accessors the statement does not mention are counted, not judged (a path may legitimately be normalised).
@@ -643,6 +685,7 @@ impl MapLife {
             if !left.is_empty() { return Err(v("still-mapped-after-drop", "MemoryMap::drop", format!("all maps dropped, yet file {} ({:?}) is still mapped in {} region(s)", fi, self.files[fi], left.len()))); }
         }
         stats.sigs.insert(sig);
+        drop(busy);
         drop(held);
         let _ = BTreeMap::<u8, u8>::new();
         Ok(())
@@ -650,6 +693,7 @@ impl MapLife {
 
     pub fn simpler(&self) -> Vec<MapLife> {
         let mut out = Vec::new();
+        if self.cwd_removed { let mut s = self.clone(); s.cwd_removed = false; out.push(s); }
         for i in 0..self.ops.len() {
             // Removing a Map op shifts slot numbers; renumber the references.
             let mut s = self.clone();
@@ -674,6 +718,7 @@ impl MapLife {
             let smaller: Vec<FileSpec> = match f {
                 FileSpec::Sparse(n) => vec![FileSpec::Size(4104), FileSpec::Size((*n).min(1 << 20))],
                 FileSpec::Unlinked(n) => vec![FileSpec::Size(*n), FileSpec::Unlinked(8)],
+                FileSpec::BusyExe => vec![FileSpec::Size(4104)],
                 FileSpec::Size(n) if *n > 4104 => vec![FileSpec::Size(4104), FileSpec::Size(8192), FileSpec::Size(n / 2 / 8 * 8)],
                 FileSpec::Size(n) if *n > 8 => vec![FileSpec::Size(8), FileSpec::Size(n / 2 / 8 * 8)],
                 _ => vec![],
@@ -722,6 +767,7 @@ fn file_class(f: &FileSpec) -> u64 {
     match f {
         FileSpec::Missing => 0,
         FileSpec::Dir => 7,
+        FileSpec::BusyExe => 9,
         FileSpec::Unlinked(_) => 8,
         FileSpec::Sparse(_) => 1,
         FileSpec::Size(0) => 2,
